@@ -13,6 +13,7 @@ import (
 	"path/filepath"
 	"strconv"
 	"sync/atomic"
+	"time"
 
 	"github.com/imroc/req/v3/internal/verifh"
 )
@@ -34,6 +35,7 @@ type c03JSON struct {
 //	retry       SetCommonRetryCount(2) with a condition that never matches
 type c03Caller struct {
 	mode     string
+	pos      string // exchange position of the scripted (cut) response within the call: "" | digest | retried | redirect
 	dir      string
 	buf      bytes.Buffer
 	dumpBuf  bytes.Buffer
@@ -56,6 +58,73 @@ func c03PickMode(r *rand.Rand, special string, framing string, bodyLen int) stri
 		modes = append(append([]string{}, modes...), "autodecode", "autodecode", "autodecode")
 	}
 	return verifh.Pick(r, modes)
+}
+
+// Exchange positions. A call may consist of several exchanges: the scripted (cut / over-long /
+// complete) response is then not the answer to the request the caller sent but
+//
+//	digest    the answer to the AUTHORIZED request of a Digest exchange (client-level
+//	          SetCommonDigestAuth; the peer first answers with a 401 challenge),
+//	retried   the answer to the LAST attempt of a retried call (retry on status 503; the peer
+//	          first answers 503),
+//	redirect  the answer to the request http.Client sends after a 302.
+//
+// By `call_cut_never_success` / C02's `call_final_exchange` the caller must observe exactly what
+// a single-exchange call on that response shows, so the model line of the case is unchanged. The
+// prelude exchange is complete, body-less and keep-alive: it costs no connection.
+var c03Positions = []string{"", "", "", "digest", "digest", "retried", "retried", "redirect"}
+
+// c03PosRand: the round-6 dimensions (exchange position, RST on close-delimited bodies, kind of
+// the follow-up request) draw from a stream of their own, so that the case sequences of the older
+// dimensions stay what they were for every (VERIF_SEED, tier).
+func c03PosRand(lane int64) *rand.Rand {
+	return rand.New(rand.NewSource(verifh.Seed()*1000003 + 7919*lane + 6))
+}
+
+// c03PickPos: the position for a case. `any` = some byte of the scripted response is delivered
+// (with none, the transport itself may replay the request on a fresh connection — a reused
+// connection that dies before the first response byte — which is not this lane's subject).
+func c03PickPos(r *rand.Rand, mode string, any bool) string {
+	pos := verifh.Pick(r, c03Positions)
+	if !any || mode == "result" {
+		return ""
+	}
+	if mode == "retry" && pos == "retried" {
+		return "digest"
+	}
+	return pos
+}
+
+// c03PreludeH1 is the HTTP/1.1 exchange in front of the scripted one.
+func c03PreludeH1(pos string) []byte {
+	switch pos {
+	case "digest":
+		return []byte("HTTP/1.1 401 Unauthorized\r\nWww-Authenticate: Digest realm=\"c03\", nonce=\"5f1c0a77c03\", qop=\"auth\", algorithm=MD5\r\nContent-Length: 0\r\n\r\n")
+	case "retried":
+		return []byte("HTTP/1.1 503 Service Unavailable\r\nContent-Length: 0\r\n\r\n")
+	case "redirect":
+		return []byte("HTTP/1.1 302 Found\r\nLocation: /after-redirect\r\nContent-Length: 0\r\n\r\n")
+	}
+	return nil
+}
+
+// c03ApplyPos configures the client for the position.
+func c03ApplyPos(c *Client, pos string) {
+	switch pos {
+	case "digest":
+		c.SetCommonDigestAuth("user", "secret")
+	case "retried":
+		c.SetCommonRetryCount(1).SetCommonRetryFixedInterval(time.Millisecond).SetCommonRetryCondition(func(resp *Response, err error) bool {
+			return resp != nil && resp.Response != nil && resp.StatusCode == 503
+		})
+	}
+}
+
+func (cc *c03Caller) position() string {
+	if cc == nil {
+		return ""
+	}
+	return cc.pos
 }
 
 // prepClient applies the client-level part (stays in force for the second request too).
